@@ -7,7 +7,8 @@ import random
 from .. import core, kgen, sx
 
 THEOREMS = ['C20.scope_injective', 'C20.scope_stable', 'C20.chain_claims', 'C20.chain_links', 'C20.mismatch_refused',
-            'C20.convert_subst']
+            'C20.convert_subst', 'C20.kore_conversion_text_is_the_model', 'C20.rewrite_event_text_is_the_model',
+            'C20.trace_text_is_the_model', 'C20.text_chain']
 
 
 def unhex(h):
